@@ -4,7 +4,9 @@ package plug
 
 import (
 	"fmt"
+	"strconv"
 	"sync"
+	"sync/atomic"
 	"time"
 
 	"github.com/element-of-surprise/coercion/plugins"
@@ -93,6 +95,7 @@ type Log struct {
 	evs    []Event
 	counts map[ikey]int
 	inflt  int
+	novel  map[string]struct{}
 	// Hook, if set, is called under the mutex for every appended event (used by kill-at-k fault modes
 	// and plugin journals).
 	Hook func(e *Event)
@@ -111,9 +114,32 @@ func (l *Log) Append(e Event) int {
 	return l.appendLocked(e)
 }
 
+// Progress counts, over every Log of the process, the events that are NEW in kind: the first begin / first end of
+// an action, an object written in a status it was not written in before, an API return. Repetitions (a continuous
+// check being re-run, the same status written again) do not count. Watchdogs decide "hung" on this counter standing
+// still, never on wall-clock alone: a slow machine keeps making progress, a hung engine does not - also not one whose
+// continuous checks keep ticking.
+var Progress atomic.Int64
+
 func (l *Log) appendLocked(e Event) int {
 	e.Seq = len(l.evs)
 	l.evs = append(l.evs, e)
+	var key string
+	switch e.Kind {
+	case "begin", "end":
+		key = e.Kind + "|" + e.PlanID + "|" + e.Plan + "|" + e.Tag
+	case "write", "create":
+		key = e.Kind + "|" + e.ObjID + "|" + strconv.Itoa(e.Status) + "|" + strconv.Itoa(e.NAtt)
+	default:
+		key = e.Kind + "|" + e.API + "|" + e.PlanID
+	}
+	if l.novel == nil {
+		l.novel = map[string]struct{}{}
+	}
+	if _, seen := l.novel[key]; !seen {
+		l.novel[key] = struct{}{}
+		Progress.Add(1)
+	}
 	if l.Hook != nil {
 		l.Hook(&l.evs[len(l.evs)-1])
 	}
